@@ -132,14 +132,15 @@ fn run_case(case: &Case, ev: &Evidence) -> CaseResult {
         let by_ref = op[1] % 3 == 0;
         if op[0] % 5 < 3 {
             let i = pick(op[2], 4);
-            if psks.iter().any(|(p, _)| matches!(p, Psk::External(j) if *j == i)) {
+            // the same PSK may be injected twice (each PreSharedKeyID carries its own nonce): a valid list
+            if psks.iter().any(|(p, _)| matches!(p, Psk::External(j) if *j == i)) && op[3] % 3 != 0 {
                 continue;
             }
             psks.push((Psk::External(i), by_ref));
         } else {
             let back = pick(op[2], 6) as u64;
             let e = w.epoch.saturating_sub(back);
-            if psks.iter().any(|(p, _)| matches!(p, Psk::Resumption(x) if *x == e)) {
+            if psks.iter().any(|(p, _)| matches!(p, Psk::Resumption(x) if *x == e)) && op[3] % 3 != 0 {
                 continue;
             }
             psks.push((Psk::Resumption(e), by_ref));
@@ -385,6 +386,53 @@ fn run_case(case: &Case, ev: &Evidence) -> CaseResult {
                 (true, Err(e)) => return Err(fail(&format!("joiner_holding_the_psks_rejected|{}", e.class()), e.text().into())),
                 (false, Ok(_)) => return Err(fail("joiner_without_the_psks_joined", format!("joiner holds external PSKs: {} (0 = same values); commit carries {applied:?}", h))),
                 (false, Err(e)) => ev.class(&format!("joiner_without_psks_rejected:{}", e.class())),
+            }
+        }
+    }
+    // An external commit that injects an external PSK: members holding the outsider's value follow it, every other member
+    // rejects it and stays exactly as it was.
+    if case.c(8) % 2 == 0 && followers.len() >= 2 {
+        let i = pick(case.c(7), 4);
+        let same = case.c(6) % 2 == 0;
+        let x = w.new_party();
+        let val: [u8; 32] = if same { [0x10 + i as u8; 32] } else { [0x55; 32] };
+        w.parties[x].pstore.put(&psk_id(i), &val);
+        let f = followers[followers.len() - 1];
+        let gi = guard(|| w.parties[f].g().group_info_message_allowing_ext_commit(true)).map_err(|e| setup_failure(P, "group_info", &e))?;
+        let t2 = w.tick();
+        let outsider = &w.parties[x];
+        let built = guard(|| outsider.client.external_commit_builder()?.with_external_psk(mls_rs::psk::ExternalPskId::new(psk_id(i))).commit_time(t2).build(gi));
+        match built {
+            Err(e) if e.is_panic() => return Err(panic_failure(P, "external_commit_builder.build", &e)),
+            Err(e) => ev.class(&format!("external_psk_commit_not_built:{}", e.class())),
+            Ok((xg, msg)) => {
+                let bytes = msg.to_bytes().expect("enc");
+                let auth_x = xg.epoch_authenticator().map(|s| s.as_bytes().to_vec()).unwrap_or_default();
+                for m in followers.clone() {
+                    let should = same && (m == committer || holds[&(m, i)] == 0);
+                    let before = snap(&w, m)?;
+                    let r = w.process(m, &bytes);
+                    match (should, r) {
+                        (_, Err(e)) if e.is_panic() => return Err(panic_failure(P, "process_incoming_message(external psk commit)", &e)),
+                        (true, Ok(_)) => {
+                            if w.parties[m].g().epoch_authenticator().map(|s| s.as_bytes().to_vec()).unwrap_or_default() != auth_x {
+                                return Err(fail("followers_of_external_psk_commit_disagree", format!("member {m}")));
+                            }
+                            ev.class("external_psk_commit_followed");
+                        }
+                        (true, Err(e)) => return Err(fail(&format!("holder_of_all_psks_rejects|external_commit|{}", e.class()), format!("member {m} holds external psk {i}: {}", e.text()))),
+                        (false, Ok(_)) => return Err(fail("member_without_the_psk_follows|external_commit", format!("member {m}, external psk {i}, outsider holds the reference value: {same}"))),
+                        (false, Err(e)) => {
+                            ev.class(&format!("non_holder_rejects_external_psk_commit:{}", e.class()));
+                            let after = snap(&w, m)?;
+                            let d = before.diff(&after);
+                            if !d.is_empty() {
+                                let sig = format!("{P}|rejected_external_psk_commit_changed_state|diff={}", diff_components(&d));
+                                ev.known_or_fail(&sig, || format!("member {m}: {d:?}"))?;
+                            }
+                        }
+                    }
+                }
             }
         }
     }
